@@ -332,9 +332,9 @@ def toy_stmt(rng):
     return "ALTER TABLE %s RENAME COLUMN %s TO %s;" % (t, a, b)
 
 
-def toy_steps(rng, allow_dup=True):
+def toy_steps(rng, allow_dup=True, allow_empty=False):
     steps = []
-    for _ in range(rng.randint(1, 5)):
+    for _ in range(0 if (allow_empty and rng.random() < 0.04) else rng.randint(1, 5)):
         if allow_dup and steps and rng.random() < 0.12:
             steps.append(list(rng.choice(steps)))
         else:
@@ -347,7 +347,7 @@ def gen_toy_cases(ctx):
     thorough = ctx.tier == "thorough"
     cases = []
     for _ in range(120 if not thorough else 1500):
-        steps = toy_steps(rng)
+        steps = toy_steps(rng, allow_empty=True)
         schema = [["fit", ["id"] + rng.sample(TOY_COLS, rng.randint(0, 2))]]
         for t in TOY_TABLES[1:]:
             if rng.random() < 0.5:
@@ -363,7 +363,7 @@ def gen_toy_cases(ctx):
         elif r < 0.9:
             rev = "stamp:%d" % rng.randint(0, n)
         else:
-            rev = "unknown:" + rng.choice(["deadbeef", "", D.step_id(steps[0])])
+            rev = "unknown:" + rng.choice(["deadbeef", ""] + [D.step_id(st) for st in steps[:1]])
         cases.append({"kind": "toy", "steps": steps, "schema": schema, "rev": rev, "nfits": rng.randint(0, 2),
                       "sessions": [{"ops": pick_ops(rng)} for _ in range(rng.randint(1, 3))]})
     return cases
@@ -779,8 +779,19 @@ def run(ctx):
 
 
 MANIFEST = {
-    "text": "Coq 8.16 theorems over a model of Migrator / SessionWrapper / open_database and of the SQLite file + connection "
-            "(transactions, failing DDL = no-op) with the step list, ORM schema and md5 table regenerated from /repo on every run",
-    "note": "",
-    "technique": "machine-checked proof in Coq (translator-regenerated step list) + vm_compute correspondence",
+    "text": "Coq 8.16 theorems over a Gallina model of Migrator.get_steps / Revision.__sub__ / Migrator.migrate / SessionWrapper / "
+            "open_database and of the SQLite file + one connection (transactions, failing DDL = no-op), with the step list, ORM schema, "
+            "md5 table and code variant regenerated from /repo on every run: exactly the missing steps once and in order for every "
+            "stamped prefix (all step lists with distinct ids), idempotence and fixed point once stamped, every prefix (stamped or "
+            "unstamped) reaches the current schema (finite family, kernel-checked computation), rows / tables / columns never lost; "
+            "the full fixed-point statement is refuted for the pinned code (universally: no commit => never stamped; empty revision "
+            "table => never stamped) with the partial theorem under a first-session commit, and proved in full for the repaired "
+            "variant; plus vm_compute correspondence of the model with real SQLite files at every historical revision opened "
+            "through open_database / Aggregator.from_database and a direct property oracle incl. all storage features",
+    "note": "Trusted: Coq kernel + vm_compute; the translator (AST of steps.py, fail-closed DDL parser, Base.metadata read at run time, "
+            "hashlib.md5 as a finite table, a syntactic reading of which repairs the code contains); the correspondence harness. "
+            "SQLite's evaluation of the three DDL forms, pysqlite's transaction control and SQLAlchemy's commit/close are modelled and "
+            "covered by correspondence only (history + toy cases). One connection at a time; sqlite files only (no URL databases). "
+            "Five genuine defects are recorded as known findings (two proposed fixes); the check passes unchanged on the repaired tree.",
+    "technique": "machine-checked proof in Coq (translator-regenerated step list / schema) + vm_compute correspondence",
 }
